@@ -127,10 +127,10 @@ pub fn schedule(max_len: usize) -> BoxedStrategy<Schedule> {
         6 => (any::<[u8; MAX_THREADS]>(), vec(0u32..600u32, 1..=4)).prop_map(|(prio, change)| Policy::Pct { prio: prio.to_vec(), change }),
         // a thread held in the middle of a handle-population call (2) or of a send/receive (1)
         // while everybody else runs on
-        2 => (1u8..=8, 0..POPULATION_CALLS.len(), 0u8..48, prop_oneof![Just(223u8), Just(247u8)])
-            .prop_map(|(victim, k, nth, stay)| Policy::StallCall { victim, kind: POPULATION_CALLS[k], nth, stay }),
-        1 => (1u8..=8, 0..TRAFFIC_CALLS.len(), 0u8..24, prop_oneof![Just(223u8), Just(247u8)])
-            .prop_map(|(victim, k, nth, stay)| Policy::StallCall { victim, kind: TRAFFIC_CALLS[k], nth, stay }),
+        2 => (1u8..=8, 0..POPULATION_CALLS.len(), 0u8..48, prop_oneof![Just(223u8), Just(247u8)], hold_len())
+            .prop_map(|(victim, k, nth, stay, hold)| Policy::StallCall { victim, kind: POPULATION_CALLS[k], nth, stay, hold }),
+        1 => (1u8..=8, 0..TRAFFIC_CALLS.len(), 0u8..24, prop_oneof![Just(223u8), Just(247u8)], hold_len())
+            .prop_map(|(victim, k, nth, stay, hold)| Policy::StallCall { victim, kind: TRAFFIC_CALLS[k], nth, stay, hold }),
     ];
     (policy, vec(any::<u8>(), 0..max_len))
         .prop_map(|(policy, bytes)| Schedule { policy, bytes })
@@ -160,9 +160,16 @@ pub fn stall_call_schedule(max_len: usize, kinds: &'static [u8]) -> BoxedStrateg
         0u8..48,
         prop_oneof![Just(223u8), Just(247u8)],
         vec(any::<u8>(), 0..max_len),
+        hold_len(),
     )
-        .prop_map(move |(victim, k, nth, stay, bytes)| Schedule { policy: Policy::StallCall { victim, kind: kinds[k], nth, stay }, bytes })
+        .prop_map(move |(victim, k, nth, stay, bytes, hold)| Schedule { policy: Policy::StallCall { victim, kind: kinds[k], nth, stay, hold }, bytes })
         .boxed()
+}
+
+/// how long a stalled thread is held: until nobody else can make progress (0) or for 16..1600 points
+/// of the others
+fn hold_len() -> BoxedStrategy<u8> {
+    prop_oneof![2 => Just(0u8), 3 => 1u8..=12, 2 => 12u8..=100].boxed()
 }
 
 /// CallKind codes: AddStream, CloneRx, DropRx, UnsubRx, IntoSingle, IntoMulti, CloneTx, DropTx
@@ -774,7 +781,7 @@ pub fn addstream_plan() -> BoxedStrategy<AddStreamPlan> {
         prop_oneof![3 => Just(false), 1 => Just(true)],
         (prop_oneof![2 => Just(0u8), 1 => Just(1u8), 1 => Just(2u8)], prop_oneof![2 => Just(0u8), 1 => Just(1u8), 1 => Just(2u8)]),
         (
-            prop_oneof![5 => Just(None), 1 => (0u8..3, any::<bool>()).prop_map(Some)],
+            prop_oneof![3 => Just(None), 1 => (0u8..3, any::<bool>()).prop_map(Some)],
             // one case in four: a thread is held at one of the first points of its add_stream call
             // while everybody else runs on (after round-6 seed C01-6)
             prop_oneof![3 => schedule(500), 1 => stall_call_schedule(500, &[14])],
